@@ -3831,6 +3831,13 @@ DFSDIgetslice(const char *filename, int32 winst[], int32 windims[], void *data, 
     }
     leastsig = (int32)rank - 1; /* which is least sig dim */
 
+    /* a data set that was defined but never written (e.g. an SDS created through the SD interface) has no data
+       element in its group; tag 0 / ref 0 are wildcards and would select the first element of the file */
+    if (Readsdg.data.tag == 0 || Readsdg.data.ref == 0) {
+        free(wstart);
+        HCLOSE_GOTO_ERROR(file_id, DFE_NOMATCH, FAIL);
+    }
+
     /* position at start of data set */
     aid = Hstartread(file_id, Readsdg.data.tag, Readsdg.data.ref);
     if (aid == FAIL) {
